@@ -160,7 +160,7 @@ func c10Queries(w *l1World) error {
 
 func TestC10Rapid(t *testing.T) {
 	rec := evid.For("C10")
-	runRapid(t, 250, 6000, func(rt *rapid.T) {
+	runRapid(t, 100, 6000, func(rt *rapid.T) {
 		c := rec.Begin()
 		w := newL1World(rt, l1Cfg{weights: c10Weights, maxBridges: 5, withFee: true, badCfgProb: 5, manyBridges: true, periods: []time.Duration{time.Minute}})
 		earlyTarget := map[uint64]bool{} // ids that were deposited to before they existed
